@@ -171,7 +171,19 @@ impl<T: Qcow2IoOps> Qcow2Dev<T> {
         buf: &mut [u8],
     ) -> Qcow2Result<usize> {
         match mapping.cluster_offset {
-            Some(off) => self.call_read(off + off_in_cls as u64, buf).await,
+            Some(off) => {
+                let done = self.call_read(off + off_in_cls as u64, buf).await?;
+
+                // The host file may end inside this cluster if the tail of
+                // the cluster has never been written (zeroing a new cluster
+                // punches a hole, which doesn't extend the file): that part
+                // reads as zeros, like the rest of a freshly allocated cluster
+                if done < buf.len() {
+                    let tail = &mut buf[done..];
+                    zero_buf!(tail);
+                }
+                Ok(buf.len())
+            }
             None => Err("DataFile mapping: None offset None".into()),
         }
     }
